@@ -535,6 +535,7 @@ def found_fits(f, hay_len, needle_len, some=1):
             return case.val(needle_len) <= case.val(hay_len)
         except KeyError:
             return True
+    g.points = (hay_len, needle_len)      # compare() makes these points of every case, so that the fact is never silently inert
     return g
 
 
@@ -587,6 +588,9 @@ def compare(paths, rows, nonneg=True, extra_consts=(), variant_domain=None, cons
     pconds = [[norm_atom(c) for c in p.conds] for p in ps]
     atoms = [a for cs in pconds for a in cs] + [g for r in rows for g in r.guards]
     atoms += [norm_atom(c) for c in constraints if not callable(c)]
+    for c in constraints:
+        for pt in getattr(c, "points", ()) if callable(c) else ():
+            atoms.append(norm_atom(le(pt, pt)))
     # small constants subtracted on a path under a no-underflow assumption take part in the case split (see below)
     extra_consts = tuple(extra_consts) + tuple(sorted({ob[2][1] for p in ps for ob in (getattr(p, "assumed", ()) or ())
                                                        if ob[0] == "nounder" and isinstance(ob[2], tuple) and ob[2][0] == "int"
